@@ -13,6 +13,7 @@ import (
 var ZZEntries = map[string]func([]int){
 	"HResolve": func(a []int) { HResolve(a[0], a[1], a[2]) },
 	"HWindow":  func(a []int) { HWindow(a[0], a[1], a[2], a[3]) },
+	"HLongIndex": func(a []int) { HLongIndex(a[0], a[1]) },
 }
 
 // base pointers (valid, to every kind of node, in both spellings) for the
@@ -223,6 +224,30 @@ func HWindow(skel, base, pos, k int) {
 	doc := buildDoc(skel, 1)
 	check(doc, b[:pos]+zz.String(k)+b[pos+k:])
 	zz.Cover("window-case-ran")
+}
+
+// HLongIndex: an array index token of n decimal digits (no leading zero) applied to an 11-element sequence,
+// directly (depth 0) or below a member (depth 1): for n >= 3 no such element exists, whatever the digits -
+// in particular none of the 20-digit values at or beyond 2^64 may wrap around to a small index.
+func HLongIndex(n, depth int) {
+	var e []*yaml.Node
+	for i := 0; i < 11; i++ {
+		e = append(e, scalar("e"))
+	}
+	doc := sequence(e...)
+	d := zz.String(n)
+	for i := 0; i < n; i++ {
+		zz.Assume(zz.And(d[i] >= '0', d[i] <= '9'))
+	}
+	zz.Assume(d[0] != '0')
+	ptr := "/" + d
+	if depth == 1 {
+		doc = mapping(scalar("arr"), doc)
+		ptr = "/arr/" + d
+	}
+	_, err := Resolve(ptr, doc)
+	zz.Cover("long-index-ran")
+	zz.Assert(err != nil, "an index of three or more digits designates no element of an 11-element array")
 }
 
 func HResolve(skel, n, klen int) {
